@@ -107,6 +107,13 @@ pub fn run(rep: &mut Report, thorough: bool) {
             // (both ELF classes: a 64-bit process can map 32-bit images - emulators, tools that
             // inspect foreign objects)
             let mut spec = ElfSpec::random(&mut rng);
+            // an image of a big-endian architecture (what a cross linker, an emulator or a binary
+            // inspector maps): its identity is read with the byte order its header declares.
+            // (derived from bytes already drawn, so that the random stream of older seeds is unchanged)
+            spec.big_endian = spec.text.first().map(|x| x % 6 == 0).unwrap_or(false);
+            if spec.big_endian {
+                rep.count("big_endian_images", 1);
+            }
             // an image linked at a non-zero base (classic non-PIE executable, prelinked library):
             // p_vaddr != p_offset for every segment
             if rng.chance(1, 4) {
